@@ -179,6 +179,7 @@ type agg struct {
 	perMode     map[string]int
 	wallUS      int64
 	harnessErrs []string
+	unconfirmed int // harness errors that are violations seen once and not reproduced
 }
 
 func driveMain() {
@@ -283,6 +284,11 @@ func driveMain() {
 	if len(a.harnessErrs) > 0 {
 		fmt.Fprintf(os.Stderr, "harness errors (%d), first: %s\n", len(a.harnessErrs), a.harnessErrs[0])
 		exit = 2
+		if len(violations) > 0 && a.unconfirmed == len(a.harnessErrs) {
+			// every harness error is an observation that did not reproduce, and there is a violation
+			// that DID reproduce in a fresh process: report that one
+			exit = 0
+		}
 	}
 	// every listed known finding of this property is printed, with the number of runs of this
 	// batch that reproduced it (a seeded search may not hit each of them every time)
@@ -384,7 +390,13 @@ func (d *driverCfg) runPhase(eng Engine, ph Phase, deadline time.Time, nextID *i
 			a.skips++
 		case "harness-error":
 			a.harnessErrs = append(a.harnessErrs, res.Msg)
-			stop = true
+			if strings.Contains(res.Msg, "did not reproduce in a fresh process") {
+				// an observation that could not be confirmed: keep searching - a confirmed,
+				// replayable violation of the same batch is still a violation (see the exit logic)
+				a.unconfirmed++
+			} else {
+				stop = true
+			}
 		case "violation":
 			if k := matchKnown(known, res); k != "" {
 				a.known[k]++
